@@ -16,6 +16,7 @@ pub fn gen(stream: &str, r: &mut Rng, index: u64) -> String {
         "readerx" => decode::gen_readerx(r, index),
         "xmark" => decode::gen_xmark(r, index),
         "noalloc" => decode::gen_noalloc(r, index),
+        "views" => decode::gen_views(r, index),
         "iter" => decode::gen_iter(r, index),
         "rrset" => decode::gen_rrset(r, index),
         "nameeq" => decode::gen_nameeq(r, index),
@@ -33,6 +34,7 @@ pub fn eval(line: &str) -> String {
         Some("rdata") => decode::eval_rdata(&toks),
         Some("reader") => decode::eval_reader(&toks),
         Some("xmark") => decode::eval_xmark(&toks),
+        Some("views") => decode::eval_views(&toks),
         Some("noalloc") => decode::eval_noalloc(&toks),
         Some("noalloci") => decode::eval_noalloc_iter(&toks),
         Some("iter") => decode::eval_iter(&toks),
